@@ -77,6 +77,13 @@ fn exec_inner(t: &[&str], cx: &mut Ctx) -> Option<String> {
         }
     }
     go(r.src, 0, &mut vec![], &r.edges, r.max_steps, &mut best);
+    let mut sp_cache: Option<Vec<SP>> = None;
+    // DFS mode without a negative cycle: a miss is the known finding only under its narrow predicate
+    let mut dfs_miss = |cx: &mut Ctx, tgt: usize, reported: Option<i64>, what: String| {
+        let paths = sp_cache.get_or_insert_with(|| simple_paths(&r));
+        if dfs_shadowing_possible(&r, paths, tgt, reported) { cx.known.push(("F-C42-dfs".into(), what)); }
+        else { cx.fails.push(format!("{what} — and no cheaper-or-equal arrival can shadow the better path (DFS must find it)")); }
+    };
     for tgt in 0..r.n {
         let (rate, path) = paths.to(&token(tgt as u64));
         let raw = paths.verif_distance(&token(tgt as u64));
@@ -124,7 +131,7 @@ fn exec_inner(t: &[&str], cx: &mut Ctx) -> Option<String> {
                 if arb == Some(false) || (arb.is_none() && no_negative_cycle(&r)) {
                     if let Some(b) = best.get(&tgt) { if *b < cost {
                         let what = format!("target {tgt}: recommended path costs {cost}, a path within {} steps costs {b}", r.max_steps);
-                        if arb.is_none() { cx.known.push(("F-C42-dfs".into(), what)); } else { cx.known.push(("F-C42-bf".into(), what)); }
+                        if arb.is_none() { dfs_miss(cx, tgt, Some(cost), what); } else { cx.known.push(("F-C42-bf".into(), what)); }
                     } }
                 }
             }
@@ -132,7 +139,7 @@ fn exec_inner(t: &[&str], cx: &mut Ctx) -> Option<String> {
             // nothing recommended although a path within the limit exists
             if arb == Some(false) || (arb.is_none() && no_negative_cycle(&r)) {
                 let what = format!("target {tgt}: no path recommended, but a path within {} steps exists (cost {b})", r.max_steps);
-                if arb.is_none() { cx.known.push(("F-C42-dfs".into(), what)); } else { cx.known.push(("F-C42-bf".into(), what)); }
+                if arb.is_none() { dfs_miss(cx, tgt, None, what); } else { cx.known.push(("F-C42-bf".into(), what)); }
             } else { cx.stats.push("arb.no_recommendation".into()); }
         }
     }
@@ -142,6 +149,67 @@ fn exec_inner(t: &[&str], cx: &mut Ctx) -> Option<String> {
     let a = match arb { None => "-", Some(false) => "0", Some(true) => "1" };
     cx.stats.push(format!("arb.{a}"));
     Some(format!("arb={a} {}", out.join(" ")))
+}
+
+/// One token-simple path from the source: end token, cost, tokens visited (bit mask, incl. source
+/// and end) and the token sequence.
+#[derive(Clone)]
+struct SP { end: usize, cost: i64, len: usize, mask: u64, seq: Vec<usize> }
+
+fn simple_paths(r: &Req) -> Vec<SP> {
+    fn go(cur: &SP, edges: &[E], max: usize, out: &mut Vec<SP>) {
+        if cur.len == max { return; }
+        for e in edges.iter().filter(|e| e.src == cur.end) {
+            let Some(c) = e.cost else { continue };
+            if cur.mask & (1u64 << e.dst) != 0 { continue; }
+            let mut seq = cur.seq.clone(); seq.push(e.dst);
+            let nx = SP { end: e.dst, cost: cur.cost + c, len: cur.len + 1, mask: cur.mask | (1u64 << e.dst), seq };
+            out.push(nx.clone());
+            go(&nx, edges, max, out);
+        }
+    }
+    let root = SP { end: r.src, cost: 0, len: 0, mask: 1u64 << r.src, seq: vec![r.src] };
+    let mut out = vec![root.clone()];
+    go(&root, &r.edges, r.max_steps, &mut out);
+    out
+}
+
+/// The narrow predicate of F-C42-dfs for one target, stated on the GRAPH only (independent of any
+/// implementation): the unchanged DFS prunes an arrival at a token `v` whenever an earlier arrival
+/// was at least as cheap — whatever the steps used and whatever is on the stack. It can therefore
+/// miss a path `R` (cheaper than what it reports) only if `R` has a suffix `Q` starting at some
+/// token `v` for which TWO token-simple paths `P1`, `P2` from the source to `v` within the step
+/// limit exist with `cost(P1) <= cost(P2)` such that `P2·Q` is a valid path (token-simple, within
+/// the limit) but `P1·Q` is not (too long, or `Q` re-enters a token of `P1`): the cheaper-or-equal
+/// arrival `P1` shadows `P2` at `v` but cannot continue along `Q` itself.
+/// `reported` = cost of the recommended path (`None` = nothing recommended).
+fn dfs_shadowing_possible(r: &Req, paths: &[SP], tgt: usize, reported: Option<i64>) -> bool {
+    use std::collections::BTreeMap;
+    // per end token: (len, mask) -> (min cost, max cost)
+    let mut classes: Vec<BTreeMap<(usize, u64), (i64, i64)>> = vec![BTreeMap::new(); r.n];
+    for p in paths {
+        let e = classes[p.end].entry((p.len, p.mask)).or_insert((p.cost, p.cost));
+        if p.cost < e.0 { e.0 = p.cost; }
+        if p.cost > e.1 { e.1 = p.cost; }
+    }
+    let mut seen = std::collections::BTreeSet::new();
+    for rp in paths.iter().filter(|p| p.end == tgt && reported.map(|c| p.cost < c).unwrap_or(true)) {
+        for i in 1..rp.len { // proper, non-empty suffix starting at an inner token v
+            let v = rp.seq[i];
+            let len_q = rp.len - i;
+            let mask_q: u64 = rp.seq[i + 1..].iter().fold(0u64, |m, t| m | (1u64 << t));
+            if !seen.insert((v, len_q, mask_q)) { continue; }
+            let valid = |(l, m): (usize, u64)| l + len_q <= r.max_steps && m & mask_q == 0;
+            let cls = &classes[v];
+            for (k2, c2) in cls.iter().filter(|(k, _)| valid(**k)) {
+                for (k1, c1) in cls.iter().filter(|(k, _)| !valid(**k)) {
+                    let _ = (k1, k2);
+                    if c1.0 <= c2.1 { return true; }
+                }
+            }
+        }
+    }
+    false
 }
 
 /// textbook (synchronous, full) Bellman–Ford from the source, independent of the implementation
@@ -163,7 +231,25 @@ fn exec(req: &str, cx: &mut Ctx) -> String {
     }
 }
 
+/// a token reached three or four times with non-monotone distances: source 0, middle tokens 1..k,
+/// hub k+1, target k+2; DFS mode, positive costs (edge insertion order decides the visiting order)
+fn gen_fan(r: &mut Rng) -> String {
+    let k = r.range(3, 4) as usize;
+    let hub = k + 1; let tgt = k + 2;
+    let mut es: Vec<String> = vec![];
+    let mut m = 10;
+    let back = |r: &mut Rng| if r.chance(1, 2) { "x".to_string() } else { r.range(1, 300).to_string() };
+    for i in 1..=k { es.push(format!("0.{i}.{m}.{}", r.range(1, 200))); es.push(format!("{i}.0.{m}.{}", back(r))); m += 1; }
+    for i in 1..=k { es.push(format!("{i}.{hub}.{m}.{}", r.range(1, 200))); es.push(format!("{hub}.{i}.{m}.{}", back(r))); m += 1; }
+    es.push(format!("{hub}.{tgt}.{m}.{}", r.range(1, 100))); es.push(format!("{tgt}.{hub}.{m}.{}", back(r))); m += 1;
+    if r.chance(1, 3) { let a = r.range(1, k as u64); let b = r.range(1, k as u64); if a != b { es.push(format!("{a}.{b}.{m}.{}", r.range(1, 200))); es.push(format!("{b}.{a}.{m}.{}", back(r))); } }
+    let max_steps = if r.chance(3, 4) { 5 } else { r.range(3, 6) };
+    let src = if r.chance(5, 6) { 0 } else { r.range(1, tgt as u64) };
+    format!("swg paths {} {max_steps} {} {src} {}", tgt + 1, if r.chance(5, 6) { 1 } else { 0 }, es.join(","))
+}
+
 fn gen_req(r: &mut Rng) -> String {
+    if r.chance(1, 8) { return gen_fan(r); }
     let n = r.range(2, 7) as usize;
     let max_steps = match r.below(6) { 0 => 1, 1 => 2, 2 => 3, 3 => r.range(1, 6), _ => 5 } as usize;
     let skip = r.chance(1, 3);
